@@ -1,8 +1,11 @@
 package kit
 
 import (
+	"fmt"
 	"go/token"
 	"go/types"
+	"sort"
+	"strings"
 
 	"golang.org/x/tools/go/ssa"
 )
@@ -104,6 +107,9 @@ type PathQuery struct {
 	IgnorePanics bool
 	// Target, if non-nil, replaces "function exit" as the thing searched for.
 	Target func(ssa.Instruction) bool
+	// Known: branch conditions already decided where the search starts (e.g. EdgeFacts of the edge
+	// it starts from); a later branch on the same condition value follows the decided side only.
+	Known []Fact
 	// TargetPath is Target with the block path that led to the instruction.
 	TargetPath func(ssa.Instruction, []*ssa.BasicBlock) bool
 }
@@ -135,16 +141,42 @@ func pathSearch(start *ssa.BasicBlock, idx int, q PathQuery) *Exit {
 		b, pred *ssa.BasicBlock
 		i       int
 		path    []*ssa.BasicBlock
+		known   map[ssa.Value]bool // branch conditions decided earlier on this path
 	}
-	type key struct{ b, pred *ssa.BasicBlock }
+	type key struct {
+		b, pred *ssa.BasicBlock
+		sig     string
+	}
+	sigOf := func(m map[ssa.Value]bool) string {
+		if len(m) == 0 {
+			return ""
+		}
+		var xs []string
+		for v, b := range m {
+			xs = append(xs, fmt.Sprintf("%p=%v", v, b))
+		}
+		sort.Strings(xs)
+		return strings.Join(xs, ",")
+	}
+	init := map[ssa.Value]bool{}
+	for _, f := range q.Known {
+		c, pol := normBool(f.Cond, f.Pol)
+		init[c] = pol
+	}
 	seen := map[key]bool{}
-	work := []item{{start, nil, idx, []*ssa.BasicBlock{start}}}
+	work := []item{{start, nil, idx, []*ssa.BasicBlock{start}, init}}
 	first := true
+	steps := 0
 	for len(work) > 0 {
 		it := work[0]
 		work = work[1:]
+		steps++
+		if steps > 40000 {
+			// give up path sensitivity: report what an insensitive search would (conservative)
+			return pathSearchInsensitive(start, idx, q)
+		}
 		if !first || it.i == 0 {
-			k := key{it.b, it.pred}
+			k := key{it.b, it.pred, sigOf(it.known)}
 			if !threadable(it.b) {
 				k.pred = nil
 			}
@@ -186,13 +218,32 @@ func pathSearch(start *ssa.BasicBlock, idx int, q PathQuery) *Exit {
 			continue
 		}
 		succs := it.b.Succs
-		if it.pred != nil {
-			if v, ok := DecideOnEntry(it.b, it.pred); ok && len(succs) == 2 {
-				// the branch is decided by the values the phis of this block have when entered from pred
-				if v {
-					succs = succs[:1]
-				} else {
-					succs = succs[1:]
+		var cond ssa.Value
+		condPol := true
+		if len(succs) == 2 && len(it.b.Instrs) > 0 {
+			if iff, ok := it.b.Instrs[len(it.b.Instrs)-1].(*ssa.If); ok {
+				cond, condPol = normBool(iff.Cond, true)
+				decided, val := false, false
+				if it.pred != nil {
+					if v, ok := DecideOnEntry(it.b, it.pred); ok {
+						decided, val = true, v
+					}
+				}
+				if !decided {
+					// the same condition value was branched on earlier on this path
+					for kc, v := range it.known {
+						if SameCond(kc, cond) {
+							decided, val = true, v == condPol
+							break
+						}
+					}
+				}
+				if decided {
+					if val {
+						succs = succs[:1]
+					} else {
+						succs = succs[1:]
+					}
 				}
 			}
 		}
@@ -200,8 +251,81 @@ func pathSearch(start *ssa.BasicBlock, idx int, q PathQuery) *Exit {
 			if q.SkipEdge != nil && q.SkipEdge(it.b, s) {
 				continue
 			}
+			known := it.known
+			if cond != nil && it.b.Succs[0] != it.b.Succs[1] {
+				if _, isConst := cond.(*ssa.Const); !isConst {
+					known = map[ssa.Value]bool{}
+					for k, v := range it.known {
+						known[k] = v
+					}
+					// taking Succs[0] means the If condition was true
+					known[cond] = (s == it.b.Succs[0]) == condPol
+				}
+			}
 			np := append(append([]*ssa.BasicBlock{}, it.path...), s)
-			work = append(work, item{s, it.b, 0, np})
+			work = append(work, item{s, it.b, 0, np, known})
+		}
+	}
+	return nil
+}
+
+// pathSearchInsensitive is the plain reachability search (no memory of earlier branches).
+func pathSearchInsensitive(start *ssa.BasicBlock, idx int, q PathQuery) *Exit {
+	type item struct {
+		b    *ssa.BasicBlock
+		i    int
+		path []*ssa.BasicBlock
+	}
+	seen := map[*ssa.BasicBlock]bool{}
+	work := []item{{start, idx, []*ssa.BasicBlock{start}}}
+	first := true
+	for len(work) > 0 {
+		it := work[0]
+		work = work[1:]
+		if !first || it.i == 0 {
+			if seen[it.b] {
+				continue
+			}
+			seen[it.b] = true
+		}
+		first = false
+		stopped := false
+		for k := it.i; k < len(it.b.Instrs); k++ {
+			in := it.b.Instrs[k]
+			if q.Stop != nil && q.Stop(in) {
+				stopped = true
+				break
+			}
+			if q.TargetPath != nil {
+				if q.TargetPath(in, it.path) {
+					return &Exit{in, it.path}
+				}
+				continue
+			}
+			if q.Target != nil {
+				if q.Target(in) {
+					return &Exit{in, it.path}
+				}
+				continue
+			}
+			switch in.(type) {
+			case *ssa.Return:
+				return &Exit{in, it.path}
+			case *ssa.Panic:
+				if !q.IgnorePanics {
+					return &Exit{in, it.path}
+				}
+			}
+		}
+		if stopped {
+			continue
+		}
+		for _, s := range it.b.Succs {
+			if q.SkipEdge != nil && q.SkipEdge(it.b, s) {
+				continue
+			}
+			np := append(append([]*ssa.BasicBlock{}, it.path...), s)
+			work = append(work, item{s, 0, np})
 		}
 	}
 	return nil
@@ -336,7 +460,9 @@ func Reaches(a, b ssa.Instruction) bool {
 	if a.Parent() != b.Parent() {
 		return false
 	}
-	e := PathFrom(a, PathQuery{Target: func(in ssa.Instruction) bool { return in == b }})
+	// plain CFG reachability (an over-approximation; also keeps SameCond, which the path-sensitive
+	// search uses, from recursing)
+	e := pathSearchInsensitive(a.Block(), InstrIndex(a)+1, PathQuery{Target: func(in ssa.Instruction) bool { return in == b }})
 	return e != nil
 }
 
@@ -738,6 +864,20 @@ func expandFacts(in []Fact, depth int) []Fact {
 			if k, isC := boolConst(e); isC && k != pol {
 				continue
 			}
+			// an input edge whose own branch conditions contradict what is known is not taken either
+			contra := false
+			for _, ef := range edgeFacts(ph.Block().Preds[i], ph.Block()) {
+				ec, ep := normBool(ef.Cond, ef.Pol)
+				for _, g := range in {
+					gc, gp := normBool(g.Cond, g.Pol)
+					if gp != ep && SameCond(gc, ec) {
+						contra = true
+					}
+				}
+			}
+			if contra {
+				continue
+			}
 			feasible = i
 			n++
 		}
@@ -887,4 +1027,89 @@ func IfBranches(iff *ssa.If) (cond ssa.Value, onTrue, onFalse *ssa.BasicBlock) {
 		t, f = f, t
 	}
 	return c, t, f
+}
+
+// ResolveLeaf resolves v through phis using the input choices of path (see props.valueLeaves): the
+// value a sibling result has when a given leaf was selected. Phis whose block has a chosen phi use
+// the same input index.
+func ResolveLeaf(v ssa.Value, path map[*ssa.Phi]int) ssa.Value {
+	for n := 0; n < 16; n++ {
+		ph, ok := Strip(v).(*ssa.Phi)
+		if !ok {
+			return Strip(v)
+		}
+		idx, found := -1, false
+		if i, ok := path[ph]; ok {
+			idx, found = i, true
+		} else {
+			for q, i := range path {
+				if q.Block() == ph.Block() {
+					idx, found = i, true
+				}
+			}
+		}
+		if !found || idx >= len(ph.Edges) {
+			return ph
+		}
+		v = ph.Edges[idx]
+	}
+	return v
+}
+
+// SameCond reports whether two branch conditions are the same value, or two loads of the same local
+// variable (one that go/ssa kept in memory because a closure captures it) with nothing in between
+// that can write it: no store to it and no call of a closure that captures it on any path from the
+// first load to the second.
+func SameCond(a, b ssa.Value) bool {
+	if a == b {
+		return true
+	}
+	la, ok1 := a.(*ssa.UnOp)
+	lb, ok2 := b.(*ssa.UnOp)
+	if !ok1 || !ok2 || la.Op != token.MUL || lb.Op != token.MUL || la.X != lb.X || la.Parent() != lb.Parent() {
+		return false
+	}
+	al, ok := la.X.(*ssa.Alloc)
+	if !ok {
+		return false
+	}
+	first, second := ssa.Instruction(la), ssa.Instruction(lb)
+	if !Reaches(first, second) {
+		first, second = second, first
+		if !Reaches(first, second) {
+			return false
+		}
+	}
+	// closures capturing the variable
+	capt := map[ssa.Value]bool{}
+	for _, r := range Referrers(al) {
+		if mc, ok := r.(*ssa.MakeClosure); ok {
+			capt[mc] = true
+		}
+	}
+	bad := false
+	Instrs(la.Parent(), func(in ssa.Instruction) {
+		if bad {
+			return
+		}
+		writes := false
+		switch x := in.(type) {
+		case *ssa.Store:
+			writes = x.Addr == ssa.Value(al)
+		case ssa.CallInstruction:
+			cc := x.Common()
+			if capt[cc.Value] {
+				writes = true
+			}
+			for _, arg := range cc.Args {
+				if arg == ssa.Value(al) || capt[arg] {
+					writes = true
+				}
+			}
+		}
+		if writes && Reaches(first, in) && Reaches(in, second) {
+			bad = true
+		}
+	})
+	return !bad
 }
